@@ -89,6 +89,9 @@ var c11Templates = []string{
 	`<p>{{ x + 1 }}</p>`, `<p>{{ x == 1 }}</p>`, `<p v-if="x > 1">a</p>`, `<p v-if="!x">a</p>`, `<template include="c.vuego" :p="x"></template>`, `<template :y="x">{{ y }}</template>`,
 	`<p>{{ x | json }}</p>`, `<p>{{ x | int }}</p>`, `<p>{{ x | string }}</p>`, `<p>{{ x | formatTime("2006") }}</p>`, `<p>{{ x | title }}</p>`, `<p>{{ x.secret }}</p>`, `<p>{{ x.1 }}</p>`, `<p v-for="i in x.Items">{{ i }}</p>`,
 	`<p :title="x.hidden">a</p>`, `<p v-if="x.secret">a</p>`, `<slot :p="x">f</slot>`, `<p v-once v-for="i in x">{{ i }}</p>`,
+	// indexes outside the collection, negative ones included, in every position that resolves a path
+	`<p>{{ x[-1] }}|{{ x[-5] }}|{{ x[99] }}</p>`, `<p :title="x[-3]" :class="{k: x[-2]}">a</p>`, `<p v-for="i in x[-1]">{{ i }}</p>`, `<p v-if="x[-9].k">a</p><p v-else>b</p>`, `<p v-text="x[-1]"></p><p v-html="x[-4]"></p>`,
+	`<p>{{ x[-1][-1] }}{{ x.y[-1] }}{{ x | default(x[-7]) }}</p>`,
 	// names promoted from an embedded struct, by Go name and by JSON tag, directly and through a loop variable (the embedded pointer may be nil)
 	`<p>{{ x.created }}|{{ x.Created }}|{{ x.ID }}|{{ x.note }}</p>`, `<p>{{ x.Base.Created }}{{ x.Base.created }}</p>`, `<p v-for="p in x">{{ p.created }}{{ p.ID }}{{ p.Base }}</p>`,
 	`<p v-if="x.created">a</p><p :title="x.created" :class="{k: x.ID}">b</p>`, `<p>{{ x.n5.created }}{{ x.n5.ID }}{{ x.title }}</p>`,
